@@ -12,7 +12,7 @@ from __future__ import annotations
 
 import ast
 
-from .core import AnalysisError, Repo, Report, call_name, dotted, norm, own_nodes
+from .core import AnalysisError, Repo, Report, call_name, dotted, nested_defs, norm, own_nodes
 
 RULE = "E4"
 FRESH, ALIAS = "FRESH", "ALIAS"
@@ -524,6 +524,9 @@ def rule_no_inplace_mutation(rep: Report, repo: Repo):
             if base == "self" and fa.func.name == "__init__":
                 rep.ok(RULE, inst + " (object under construction)", "", where)
                 continue
+            if (base in fa.captured or (base is not None and base not in fa.locals)) and kind == "item store" and _is_memo_store(fa.func, base, node):
+                rep.ok(RULE, inst + f" fills the memo table `{base}` (written once per key; the key is decided by E4.memo_key)", "", where)
+                continue
             if base in fa.captured or (base is not None and base not in fa.locals):
                 rep.fail(RULE, f"{fa.mod}::{fa.q} {kind} on `{txt}` writes captured/shared state `{base}` that is not in the closure-state table",
                          "a closure that mutates state shared between evaluations makes results depend on the request history; "
@@ -668,6 +671,10 @@ def rule_closure_state(rep: Report, repo: Repo):
                 rep.ok(R, f"{fa.mod}::{fa.q} writes captured `{base}` ({kind})", CLOSURE_STATE[ckey], repo.loc(fa.mod, node))
             elif (fa.mod, fa.q, txt) in EXEMPT:
                 rep.ok(R, f"{fa.mod}::{fa.q} writes `{txt}` (exempt)", EXEMPT[(fa.mod, fa.q, txt)], repo.loc(fa.mod, node))
+            elif kind == "item store" and _is_memo_store(fa.func, base, node):
+                rep.ok(R, f"{fa.mod}::{fa.q} fills the memo table `{base}` under `K not in {base}`",
+                       "a table of computed values written once per key: history-independent iff the key pins what the value reads (E4.memo_key)",
+                       repo.loc(fa.mod, node))
             else:
                 rep.fail(R, f"{fa.mod}::{fa.q} writes captured state `{base}` ({kind}) not in the closure-state table",
                          "state shared between evaluations: results may depend on the request history or be left half-updated by an exception",
@@ -850,7 +857,125 @@ def rule_loop_carried_state(rep: Report, repo: Repo):
 # ---------------------------------------------------------------------------
 
 
-def rule_memo_key(rep: Report, repo: Repo):
+def memo_guards(func: ast.FunctionDef, table: str):
+    """`if K not in table: ... table[K] = V` statements in `func` -> [(guard, key AST, store statement)]"""
+    out = []
+    for x in own_nodes(func):
+        if isinstance(x, ast.If) and isinstance(x.test, ast.Compare) and len(x.test.ops) == 1 and isinstance(x.test.ops[0], ast.NotIn) \
+                and norm(x.test.comparators[0]) == table:
+            for st in ast.walk(x):
+                if isinstance(st, ast.Assign) and isinstance(st.targets[0], ast.Subscript) and norm(st.targets[0].value) == table \
+                        and norm(st.targets[0].slice) == norm(x.test.left):
+                    out.append((x, x.test.left, st))
+    return out
+
+
+def _is_memo_store(func, table: str, node) -> bool:
+    """`node` (a statement or a store target) is the `table[K] = V` of an `if K not in table:` guard in `func`, and the table is an
+    empty dict created by the enclosing function."""
+    stores = [st for _g, _k, st in memo_guards(func, table)]
+    if not any(st is node or any(x is node for x in ast.walk(st)) for st in stores):
+        return False
+    p = getattr(func, "_parent", None)
+    while p is not None and not isinstance(p, ast.FunctionDef):
+        p = getattr(p, "_parent", None)
+    if p is None:
+        return False
+    return any(isinstance(x, ast.Assign) and isinstance(x.targets[0], ast.Name) and x.targets[0].id == table
+               and ((isinstance(x.value, ast.Dict) and not x.value.keys) or
+                    (isinstance(x.value, ast.Call) and call_name(x.value) == "dict" and not x.value.args and not x.value.keywords))
+               for x in own_nodes(p))
+
+
+def _access_paths(e: ast.AST, root: str) -> set:
+    """Maximal attribute / constant-subscript chains rooted at the name `root` that `e` reads: {`root`, `root[0]`, `root.shape`...}"""
+    paths = set()
+
+    def visit(n):
+        cur = n
+        while isinstance(cur, (ast.Attribute, ast.Subscript)):
+            if isinstance(cur, ast.Subscript) and not (isinstance(cur.slice, ast.Constant) or
+                                                      (isinstance(cur.slice, ast.UnaryOp) and isinstance(cur.slice.operand, ast.Constant))):
+                break
+            cur = cur.value
+        if isinstance(cur, ast.Name) and cur.id == root and isinstance(n, (ast.Attribute, ast.Subscript, ast.Name)):
+            # n is a chain down to root if we reached root without a break
+            c2, ok = n, True
+            while isinstance(c2, (ast.Attribute, ast.Subscript)):
+                if isinstance(c2, ast.Subscript) and not (isinstance(c2.slice, ast.Constant) or
+                                                         (isinstance(c2.slice, ast.UnaryOp) and isinstance(c2.slice.operand, ast.Constant))):
+                    ok = False
+                    break
+                c2 = c2.value
+            if ok:
+                paths.add(norm(n))
+                return
+        for ch in ast.iter_child_nodes(n):
+            visit(ch)
+    visit(e)
+    return paths
+
+
+def _closure_memos(rep: Report, repo: Repo, R: str, modules=None) -> int:
+    """A dictionary created in a function F and filled by a closure G of F as `if K not in D: D[K] = V` is a memo table over the
+    calls of G.  Whatever V reads from G's parameters has to be pinned by K: a parameter that V reads and K does not mention at
+    all makes two different calls share one entry (violation); a parameter that K mentions only through something that does not
+    determine what V reads (`p is q`, `len(p)`, another component) cannot be decided here."""
+    from .resolve import env_at, resolved
+    n = 0
+    for mod, tree in repo.trees.items():
+        if mod in ("__init__", "algorithms") or (modules is not None and mod not in modules):
+            continue
+        for F in [x for x in ast.walk(tree) if isinstance(x, ast.FunctionDef)]:
+            tables = [x.targets[0].id for x in own_nodes(F) if isinstance(x, ast.Assign) and isinstance(x.targets[0], ast.Name)
+                      and ((isinstance(x.value, ast.Dict) and not x.value.keys) or
+                           (isinstance(x.value, ast.Call) and call_name(x.value) == "dict" and not x.value.args and not x.value.keywords))]
+            if not tables:
+                continue
+            for G in nested_defs(F):
+                params = [a.arg for a in [*G.args.posonlyargs, *G.args.args, *G.args.kwonlyargs]] + \
+                         ([G.args.vararg.arg] if G.args.vararg else [])
+                for D in tables:
+                    for guard, key, store in memo_guards(G, D):
+                        n += 1
+                        K = resolved(key, env_at(guard, G))
+                        V = resolved(store.value, env_at(store, G))
+                        inst = f"{mod}::{qualname(G)} memo table `{D}` keyed by `{norm(K)[:60]}`"
+                        missing, partial = [], []
+                        for p_ in params:
+                            reads = _access_paths(V, p_)
+                            if not reads:
+                                continue
+                            in_key = _access_paths(K, p_)
+                            if not in_key:
+                                missing.append((p_, sorted(reads)))
+                            elif not all(any(r_ == k_ or r_.startswith(k_ + "[") or r_.startswith(k_ + ".") for k_ in in_key) for r_ in reads):
+                                partial.append((p_, sorted(reads), sorted(in_key)))
+                            else:
+                                # the paths are in the key: they must be there as values, not only inside a test
+                                class _T(ast.NodeVisitor):
+                                    bad = False
+
+                                    def visit_Compare(self, node):
+                                        if any(_access_paths(node, p_)):
+                                            self.bad = True
+                                t_ = _T()
+                                t_.visit(K)
+                                if t_.bad:
+                                    partial.append((p_, sorted(reads), ["(inside a comparison)"]))
+                        if missing:
+                            rep.fail(R, f"{inst}: the cached value reads parameter `{missing[0][0]}` ({', '.join(missing[0][1])[:60]}), which the key does not mention",
+                                     "two calls that differ in that parameter share one entry: the second silently gets what was computed for the first",
+                                     repo.loc(mod, store))
+                        elif partial:
+                            raise AnalysisError(R, f"{inst}: cannot decide whether the key determines what the cached value reads from `{partial[0][0]}` "
+                                                   f"(value reads {partial[0][1]}, key has {partial[0][2]})")
+                        else:
+                            rep.ok(R, inst, "every parameter the cached value reads is part of the key", repo.loc(mod, guard))
+    return n
+
+
+def rule_memo_key(rep: Report, repo: Repo, modules=None):
     """`D = {}` before a loop, and inside it `if K not in D: <compute>; D[K] = V` ... `D[K]`: a cache across iterations.
     Decided clause (the form that is understood): when the key K is built by a comprehension over `enumerate(X)` /
     `range(len(X))` that keeps only POSITIONS (the element values are used for filtering at most), the cached
@@ -859,7 +984,7 @@ def rule_memo_key(rep: Report, repo: Repo):
     R = "E4.memo_key"
     n_loops = n_memos = 0
     for mod, tree in repo.trees.items():
-        if mod in ("__init__", "algorithms"):
+        if mod in ("__init__", "algorithms") or (modules is not None and mod not in modules):
             continue
         for func in [n for n in ast.walk(tree) if isinstance(n, ast.FunctionDef)]:
             inits = {}
@@ -916,5 +1041,7 @@ def rule_memo_key(rep: Report, repo: Repo):
                                      "silently reuses what was computed for the first", repo.loc(mod, reads[0]))
                         else:
                             rep.ok(R, inst, f"position-only key, and the cached computation does not read the values of `{positions_of}`", repo.loc(mod, gd))
+    n_closure = _closure_memos(rep, repo, R, modules)
+    n_memos += n_closure
     rep.count("E4.memo_key", {"loops": n_loops, "memo tables": n_memos})
-    rep.floor(R, "loops inspected", n_loops, 15)
+    rep.floor(R, "loops inspected", n_loops, 15 if modules is None else 5)
